@@ -8,10 +8,11 @@ from gen_doc import Node, text as T
 from framework import Result
 
 ID = 'C12'
-LEAN_TARGETS = ['TexSoupProofs.Properties.C12']
+LEAN_TARGETS = ['TexSoupProofs.Properties.C12', 'TexSoupProofs.Properties.C12Grammar']
 THEOREMS = ['TexSoup.C12.' + n for n in (
     'double_dollar_greedy', 'escaped_dollar_is_no_switch', 'dollar_facts', 'asymmetric_switch',
-    'sizing_command_is_one_token', 'math_region')]
+    'sizing_command_is_one_token', 'math_region')] + [
+    'TexSoup.C12G.math_region_is_one_node', 'TexSoup.C12G.math_region_wf', 'TexSoup.C12G.math_environment_body_mode', 'TexSoup.C12G.math_environment_is_one_node', 'TexSoup.C12G.bracket_leaf_in_math']
 PARTIAL = []
 TRUSTED = ['harness/props/c12.py (math kinds x bodies x contexts, expected nodes and search results)',
            'harness/gen_doc.py (math grammar, sizing-command and operator tables written down from the documentation, '
